@@ -513,3 +513,199 @@ Example ex_scan_links_primary :
   | None => False
   end.
 Proof. vm_compute. repeat split; reflexivity. Qed.
+
+(* ================================================================================================================== *)
+(* Extension (session 3, round 12): -x / --keep-xattr inside the end-to-end statement (coq/ImgScan/Xattr*.v)           *)
+(* ================================================================================================================== *)
+(* pack_image_order_free above takes the xattr index per node [xa] and the xattr section [xsec] as parameters shared by
+   the two runs.  They are now COMPUTED: ImgScan.XattrModel models apply_xattrs / apply_dfs / xattr_from_path of
+   bin/gensquashfs/src/apply_xattr.c on top of C01's xattr writer model (xw_set: begin, add_kv per pair, end) and
+   ImgXattr's flush model (xflush, at the offset the file has after the id table, as in ImgE2E.PackAll).  The code drives
+   the writer over the POST-PROCESSED, SORTED tree — node first, then its children in list order — not in the order of the
+   scan; the indices (first occurrence of each distinct set in that walk) and the key / value / block tables are therefore
+   functions of the tree.
+   What is a parameter of both runs: [hx], the host's xattrs — per file NAME below the pack directory either None (an
+   llistxattr / lgetxattr call failed) or the (key, value) pairs in the order llistxattr lists the keys.  That order is
+   part of the host state and a function of the file (it differs between file systems: tmpfs lists the newest key first),
+   not of the order in which readdir enumerates directories; it is the same in both runs.  [scan_x] is the -x switch.
+   Still parameters, as before: host_file, opts, bw_bytes.  Not modelled: selinux labelling, the xattr map file. *)
+From SqfsV Require C01.XattrModel ImgXattr.FlushModel.
+From SqfsV Require Import ImgScan.XattrModel ImgScan.XattrProofs ImgScan.XattrExample.
+
+(* scan_xattrs_order_free: the xattr index stored in every node (in apply_dfs order, keyed by path) and the final state
+   of the xattr writer — key table, value table, reference counts, the distinct sets in index order — are EQUAL for every
+   two enumeration orders; so is the outcome when a host call or the writer fails (same node, same error) *)
+Theorem scan_xattrs_order_free :
+  forall (fnmatch : list N -> list N -> bool -> bool) dflt cfg scan_x hx sorted t t' fs0,
+  hwf t -> hperm t t' -> order_free_case sorted cfg t ->
+  scan_xattrs fnmatch dflt cfg scan_x hx sorted t fs0 = scan_xattrs fnmatch dflt cfg scan_x hx sorted t' fs0.
+Proof. exact scan_xattrs_order_free_l. Qed.
+Print Assumptions scan_xattrs_order_free.
+
+(* xattr_section_order_free: ... hence the whole section sqfs_xattr_writer_flush appends (key/value metadata blocks, id
+   metadata blocks, id table header and block locations, offset of the header), for every metadata compressor and
+   whatever the file size is when it is flushed *)
+Theorem xattr_section_order_free :
+  forall (fnmatch : list N -> list N -> bool -> bool) dflt cfg scan_x hx mcompress size0 sorted t t' fs0,
+  hwf t -> hperm t t' -> order_free_case sorted cfg t ->
+  xsection mcompress size0 (scan_xattrs fnmatch dflt cfg scan_x hx sorted t fs0) =
+  xsection mcompress size0 (scan_xattrs fnmatch dflt cfg scan_x hx sorted t' fs0).
+Proof. exact xsection_order_free_l. Qed.
+Print Assumptions xattr_section_order_free.
+
+(* apply_xattrs_is_xw_sets: the walk is C01's xw_sets (the object of C01's xattr writer theorems and of C05's reader
+   refinement) applied to the host's lists in the order of the sorted tree, when no host call fails *)
+Theorem apply_xattrs_is_xw_sets :
+  forall (hx : hostx) ps w,
+  Forall (fun p => hx (join_slash p) <> None) ps ->
+  apply_nodes hx w ps =
+  match XattrModel.xw_sets w (map (host_set hx) ps) with
+  | Res.Ok (w', is) => XDone w' is
+  | e => XWriterErr (res_unit e)
+  end.
+Proof. exact apply_nodes_is_xw_sets. Qed.
+Print Assumptions apply_xattrs_is_xw_sets.
+
+(* scan_image_order_free_with_xattrs: pack_image_order_free with the parameters xa / xsec discharged.  Two enumeration
+   orders, two worker pools, two backlogs, with or without -x: the same outcome — the same super blocks, data area,
+   inode table (with the xattr index of every inode), directory table, tables, xattr section, padding, output trace.
+   Hypotheses as for pack_image_order_free. *)
+Theorem scan_image_order_free_with_xattrs :
+  forall (fnmatch : list N -> list N -> bool -> bool) dflt cfg hash dcompress
+         HT ht_search ht_insert BW bw_write bw_bytes host_file scan_x (hx : hostx) opts mcompress limit wc
+         P1 sub1 deq1 alpha1 P2 sub2 deq2 alpha2 sorted q1 q2 p1 p2 (ht0 : HT) (bw0 : BW) t t' fs0,
+  fifo_laws hash dcompress P1 sub1 deq1 alpha1 -> alpha1 p1 = [] ->
+  fifo_laws hash dcompress P2 sub2 deq2 alpha2 -> alpha2 p2 = [] ->
+  (0 < FinishModel.c_block_size wc)%N -> (forall nm, BpProofs.file_ok (host_file nm)) ->
+  hwf t -> hperm t t' -> order_free_case sorted cfg t ->
+  pack_image_x fnmatch dflt cfg HT ht_search ht_insert BW bw_write bw_bytes host_file scan_x hx opts mcompress limit wc
+               P1 sub1 deq1 sorted q1 p1 ht0 bw0 t fs0 =
+  pack_image_x fnmatch dflt cfg HT ht_search ht_insert BW bw_write bw_bytes host_file scan_x hx opts mcompress limit wc
+               P2 sub2 deq2 sorted q2 p2 ht0 bw0 t' fs0.
+Proof. exact pack_image_x_order_free_l. Qed.
+Print Assumptions scan_image_order_free_with_xattrs.
+
+(* ... hence every byte of the file *)
+Theorem image_bytes_order_free_with_xattrs :
+  forall (fnmatch : list N -> list N -> bool -> bool) dflt cfg hash dcompress
+         HT ht_search ht_insert BW bw_write bw_bytes host_file scan_x (hx : hostx) opts mcompress limit wc
+         P1 sub1 deq1 alpha1 P2 sub2 deq2 alpha2 sorted q1 q2 p1 p2 (ht0 : HT) (bw0 : BW) t t' fs0,
+  fifo_laws hash dcompress P1 sub1 deq1 alpha1 -> alpha1 p1 = [] ->
+  fifo_laws hash dcompress P2 sub2 deq2 alpha2 -> alpha2 p2 = [] ->
+  (0 < FinishModel.c_block_size wc)%N -> (forall nm, BpProofs.file_ok (host_file nm)) ->
+  hwf t -> hperm t t' -> order_free_case sorted cfg t ->
+  image_file_x (pack_image_x fnmatch dflt cfg HT ht_search ht_insert BW bw_write bw_bytes host_file scan_x hx opts
+                             mcompress limit wc P1 sub1 deq1 sorted q1 p1 ht0 bw0 t fs0) =
+  image_file_x (pack_image_x fnmatch dflt cfg HT ht_search ht_insert BW bw_write bw_bytes host_file scan_x hx opts
+                             mcompress limit wc P2 sub2 deq2 sorted q2 p2 ht0 bw0 t' fs0).
+Proof. exact image_file_x_order_free_l. Qed.
+Print Assumptions image_bytes_order_free_with_xattrs.
+
+(* pack_image_with_xattrs_is_function_of_tree: every run IS [image_spec_x] of the post-processed tree (xattr stage, then
+   the in-order data path specification, then finish + flush): neither side of the equations above is a data path failure *)
+Theorem pack_image_with_xattrs_is_function_of_tree :
+  forall (fnmatch : list N -> list N -> bool -> bool) dflt cfg hash dcompress
+         HT ht_search ht_insert BW bw_write bw_bytes host_file scan_x (hx : hostx) opts mcompress limit wc
+         P sub deq alpha sorted q p0 (ht0 : HT) (bw0 : BW) t fs0,
+  fifo_laws hash dcompress P sub deq alpha -> alpha p0 = [] ->
+  (0 < FinishModel.c_block_size wc)%N -> (forall nm, BpProofs.file_ok (host_file nm)) ->
+  pack_image_x fnmatch dflt cfg HT ht_search ht_insert BW bw_write bw_bytes host_file scan_x hx opts mcompress limit wc
+               P sub deq sorted q p0 ht0 bw0 t fs0 =
+  match scan_post fnmatch dflt cfg sorted t fs0 with
+  | None => IRest IScanErr
+  | Some PErr => IRest IPostErr
+  | Some PFuel => IRest IPostLoop
+  | Some (POk pp) =>
+      image_spec_x hash dcompress HT ht_search ht_insert BW bw_write bw_bytes host_file scan_x hx opts mcompress limit wc
+                   ht0 bw0 pp
+  end.
+Proof. exact pack_image_x_is_spec. Qed.
+Print Assumptions pack_image_with_xattrs_is_function_of_tree.
+
+(* pack_image_x_instantiates_pack_image: the new model is the old one with its two parameters computed — when the xattr
+   stage succeeds and the flush at the final offset yields x, the run is [pack_image] with xa := the stored indices and
+   xsec := x *)
+Theorem pack_image_x_instantiates_pack_image :
+  forall (fnmatch : list N -> list N -> bool -> bool) dflt cfg
+         HT ht_search ht_insert BW bw_write bw_bytes host_file scan_x (hx : hostx) opts mcompress limit wc
+         P sub deq sorted q p0 (ht0 : HT) (bw0 : BW) t fs0 pp xw idxs,
+  scan_post fnmatch dflt cfg sorted t fs0 = Some (POk pp) ->
+  apply_xattrs scan_x hx pp = XDone xw idxs ->
+  forall x,
+  (forall ino bw ftbl, exists w0,
+     finish_image BW bw_bytes (xa_of (xattr_paths pp) idxs) None opts mcompress limit wc pp ino bw ftbl = Res.Ok w0 /\
+     FlushModel.xflush mcompress (FinishProofs.o_xattr w0) xw = Res.Ok x) ->
+  pack_image_x fnmatch dflt cfg HT ht_search ht_insert BW bw_write bw_bytes host_file scan_x hx opts mcompress limit wc
+               P sub deq sorted q p0 ht0 bw0 t fs0 =
+  IRest (pack_image fnmatch dflt cfg HT ht_search ht_insert BW bw_write bw_bytes host_file
+                    (xa_of (xattr_paths pp) idxs) x opts mcompress limit wc P sub deq sorted q p0 ht0 bw0 t fs0).
+Proof. exact pack_image_x_is_pack_image. Qed.
+Print Assumptions pack_image_x_instantiates_pack_image.
+
+(* xattrs_attached_in_scan_order_refuted: the walk over the SORTED tree is what the theorems rest on.  The variant that
+   drives the writer in the order in which the scan delivers the entries (xattrs attached from the scan callback) is order
+   dependent wherever the delivery order is — unsorted native iterator, hard link filter off, i.e. the case in which the
+   fstree, the inode numbers and the file list are order independent all the same (theorem scan_order_free_nolinks):
+   witness = the directory of the examples with xattrs.  With the sorting native iterator the delivery order is itself
+   order independent (second statement), so on the present code such a variant is not observable through readdir orders
+   alone; the tie compares the indices with the model's instead. *)
+Theorem xattrs_attached_in_scan_order_refuted :
+  exists fnmatch dflt cfg hx t t' fs0 fs fs' s s',
+    hwf t /\ hperm t t' /\ order_free_case false cfg t /\
+    scan_dir fnmatch dflt cfg false t fs0 = Some (fs, s) /\ scan_dir fnmatch dflt cfg false t' fs0 = Some (fs', s') /\
+    post_process fs = post_process fs' /\
+    apply_xattrs_scan_order hx s <> apply_xattrs_scan_order hx s'.
+Proof. exact xattrs_in_scan_order_refuted. Qed.
+Print Assumptions xattrs_attached_in_scan_order_refuted.
+
+Theorem xattrs_attached_in_scan_order_free_when_sorted :
+  forall (fnmatch : list N -> list N -> bool -> bool) dflt cfg (hx : hostx) t t' fs0,
+  hwf t -> hperm t t' ->
+  option_map (fun r => apply_xattrs_scan_order hx (snd r)) (scan_dir fnmatch dflt cfg true t fs0) =
+  option_map (fun r => apply_xattrs_scan_order hx (snd r)) (scan_dir fnmatch dflt cfg true t' fs0).
+Proof. exact xattrs_in_scan_order_free_when_sorted. Qed.
+Print Assumptions xattrs_attached_in_scan_order_free_when_sorted.
+
+(* ---- non-vacuity ---- *)
+(* the directory of ex_scan_order_free_image with host xattrs: a (= m, one inode) and d/x carry S1 = {user.a=1, user.b=xy},
+   z carries S2 = {user.b=xy, user.c=""}, the directory d carries S3 = {user.a=1}, the rest nothing.  Both enumeration
+   orders: S1 gets index 0 (first met at a), S3 index 1 (d), S2 index 2 (z); d/x and m reuse 0; three keys, three sets;
+   the flushed section is the same and non-empty *)
+Example ex_scan_xattrs_order_free :
+  x_sx x_tree = x_sx x_tree' /\
+  match x_sx x_tree' with
+  | XRDone idx xw =>
+      idx = [([], InodeModel.NOX); ([nA], 0); ([nB], InodeModel.NOX); ([nC], InodeModel.NOX); ([nD], 1);
+             ([nD; nE], InodeModel.NOX); ([nD; nE; nF], InodeModel.NOX);
+             ([nD; nX], 0); ([nD; nY], InodeModel.NOX); ([nM], 0); ([nN], InodeModel.NOX); ([nZ], 2)]%N /\
+      XattrModel.x_keys xw = [k_a; k_b; k_c] /\ length (XattrModel.x_blocks xw) = 3%nat
+  | _ => False
+  end /\
+  xsection (TreeModel.img_compress 3) 1000 (x_sx x_tree) = xsection (TreeModel.img_compress 3) 1000 (x_sx x_tree') /\
+  match xsection (TreeModel.img_compress 3) 1000 (x_sx x_tree') with
+  | Some (Res.Ok (Some (b, off))) => (0 <? off)%N = true /\ (off <? Common.lenN b)%N = true
+  | _ => False
+  end.
+Proof. exact ex_scan_xattrs. Qed.
+(* a host call failing at d/y stops both runs at that node *)
+Example ex_scan_xattrs_host_error_order_free :
+  scan_xattrs x_fnmatch x_dflt x_cfg true x_hx_fail true x_tree (fs_init x_dflt) = XRStage (XHostErr [nD; nY]) /\
+  scan_xattrs x_fnmatch x_dflt x_cfg true x_hx_fail true x_tree' (fs_init x_dflt) = XRStage (XHostErr [nD; nY]).
+Proof. exact ex_scan_xattrs_host_error. Qed.
+(* the whole image with -x on the concrete data path of ex_pack_image_order_free (hypotheses: ex_pack_image_hyps,
+   ex_scan_order_free_image): backlog 3 on one order against backlog 40 on the other, one image that the format validator
+   accepts, whose xattr id table lies inside the image and which differs from the image packed without -x *)
+Example ex_pack_image_order_free_with_xattrs :
+  (0 <? FinishModel.c_block_size x_wcx)%N = true /\
+  x_packx 3 x_tree = x_packx 40 x_tree' /\
+  match x_packx 40 x_tree' with
+  | IRest (IImage (Res.Ok w)) =>
+      let b := FinishModel.image_bytes w in
+      ImageProofs.image_fits w = true /\
+      ValidModel.valid_image (TreeModel.img_uncompress 3) 4096 b = true /\
+      SuperModel.s_inode_count (FinishModel.w_super w) = 11%N /\
+      (SuperModel.s_xattr_start (FinishModel.w_super w) <? SuperModel.s_bytes_used (FinishModel.w_super w))%N = true /\
+      Some b <> image_file (x_pack 40 x_tree')
+  | _ => False
+  end.
+Proof. exact ex_pack_image_x. Qed.
